@@ -169,4 +169,30 @@ Section Generic3.
       assert (Hf := find_none _ _ E negs (proj2 (abv_In n negs) Hl)).
       apply (Hs negs Hl) in Hneg. congruence.
   Qed.
+
+  (* the answer is the first vector of the product order accepted by any decision procedure for the
+     specification: this is what makes the three classes return the same witness *)
+  Lemma g_find_negations_find outs (dec : bvec -> bool) : (forall j, In j outs -> j < m) ->
+    (forall negs, length negs = n -> (dec negs = true <-> negations_make_symmetric f n outs negs)) ->
+    g_find_negations r outs = Ok (find dec (all_bool_vectors n)).
+  Proof.
+    intros Houts Hdec. unfold g_find_negations. rewrite (proj1 Hrep).
+    set (ev := fun x => do v <- r_ev r x; filter_outputs outs v).
+    set (symb := fun negs => match g_symmetric bvec_eqb ev n (Some negs) with Ok b => b | Err _ => false end).
+    assert (Hs : forall negs, length negs = n ->
+              g_symmetric bvec_eqb ev n (Some negs) = Ok (symb negs) /\
+              (symb negs = true <-> negations_make_symmetric f n outs negs)).
+    { intros negs Hnegs.
+      destruct (g_symmetric_spec bvec_eqb ev (fun x => map (fun j => out f j x) outs) n bvec_eqb_eq
+                                 (fun x Hx => filtered_ev_ok outs x Houts Hx) negs Hnegs) as (b & Hb & Hiff).
+      unfold symb. rewrite Hb. split; [reflexivity|]. rewrite Hiff. apply negations_criterion; exact Hnegs. }
+    rewrite (findM_pure _ symb) by (intros negs Hn; apply Hs, abv_length, Hn).
+    f_equal. generalize (abv_length n). generalize (all_bool_vectors n) as l.
+    induction l as [|a l IH]; intros Hl; simpl; [reflexivity|].
+    assert (Ha : length a = n) by (apply Hl; left; reflexivity).
+    assert (E : symb a = dec a).
+    { destruct (Hs a Ha) as [_ H1]. specialize (Hdec a Ha).
+      destruct (symb a), (dec a); try reflexivity; intuition congruence. }
+    rewrite E. destruct (dec a); [reflexivity|]. apply IH. intros x Hx; apply Hl; right; exact Hx.
+  Qed.
 End Generic3.
